@@ -310,7 +310,36 @@ class CoalesceDom(ValueDomain):
         return st
 
 
+def check_abuf_reset(ctx, prog):
+    """the attached buffer's usage counter and its occupancy-table tail describe the same state: a block that resets one
+    to 0 resets the other (stale entries below `tail` are subtracted again by the next coalesce)"""
+    n = 0
+    for fn in prog.all_functions():
+        for bid, blk in fn.blocks.items():
+            z = {}
+            for e in blk.elems:
+                if e.get("k") == "asg" and e.get("op") == "=" and const_value(e["b"]) == 0:
+                    t = canon(e["a"])
+                    if t.endswith("abuf->size_used") or t.endswith("abuf->tail"):
+                        z[t.rsplit("->", 1)[1]] = e
+            if not z:
+                continue
+            n += 1
+            inst = "%s:reset@%s" % (fn.name, "+".join(sorted(z)))
+            if len(z) == 2:
+                ctx.ok("R4.abuf", inst, "size_used and tail reset together")
+            else:
+                only = list(z)[0]
+                other = "tail" if only == "size_used" else "size_used"
+                ctx.fail("R4.abuf", fn.name, "reset:%s" % only, "abuf->%s is reset to 0 without abuf->%s: the occupancy table and the "
+                         "usage counter disagree afterwards (the next coalesce subtracts the stale entries again, usage goes "
+                         "negative and NC_EINSUFFBUF is no longer raised)" % (only, other), fn=fn,
+                         line=z[only].get("l", fn.line), inst=inst)
+    ctx.require(n >= 2, "R4.abuf: expected >= 2 reset sites of the attached buffer, found %d" % n)
+
+
 def check_abuf(ctx, prog):
+    check_abuf_reset(ctx, prog)
     # EINSUFFBUF test dominates the allocation
     for name in ("ncmpio_igetput_varm", "igetput_varn"):
         fn = ctx.need_fn(prog, name)
@@ -374,7 +403,60 @@ def check_abuf(ctx, prog):
                                      "allocator" % fn.name, fn=fn, line=x.get("l", 0), inst=inst)
 
 
+GAPPED = ["MPI_COMBINER_VECTOR", "MPI_COMBINER_HVECTOR", "MPI_COMBINER_INDEXED", "MPI_COMBINER_HINDEXED",
+          "MPI_COMBINER_INDEXED_BLOCK", "MPI_COMBINER_STRUCT", "MPI_COMBINER_SUBARRAY", "MPI_COMBINER_DARRAY", "MPI_COMBINER_RESIZED"]
+
+
+def check_combiners(ctx):
+    """ncmpii_dtype_decode: every MPI type constructor that can leave gaps between the elements clears
+    *iscontig_of_ptypes on its case (otherwise put/get skip MPI_Pack/MPI_Unpack and touch the gaps of the caller's buffer)"""
+    from facts import canon
+    import patterns as _p
+    prog = ctx.program(names=["dtype_decode.c"])
+    fn = ctx.need_fn(prog, "ncmpii_dtype_decode")
+    vals = ctx.fe.constants(GAPPED)
+    byval = {v: k for k, v in vals.items() if v is not None}
+    ctx.require(len(byval) == len(GAPPED), "values of the MPI combiner constants could not be evaluated (%s)" % vals)
+    cleared = {}
+    for bid, blk in fn.blocks.items():
+        if blk.term != "switch":
+            continue
+        # blocks of each case until its break: reachable from the case label without passing another case label / the join
+        labels = {}
+        for s_ in blk.succs:
+            if s_ is None:
+                continue
+            lab = fn.blocks[s_].label or {}
+            name = byval.get(lab.get("lo")) if lab.get("k") == "case" else None
+            if name:
+                labels.setdefault(s_, []).append(name)
+        # fall-through chains: consecutive labels share the first block with statements
+        for s_, names in labels.items():
+            reg = _p.arm_region(fn, blk, s_) | {s_}
+            clr = False
+            for r in reg:
+                for e in fn.blocks[r].elems:
+                    for x in walk(e):
+                        if x.get("k") == "asg" and canon(x["a"]) == "*iscontig_of_ptypes" and const_value(x["b"]) == 0:
+                            clr = True
+            for nm in names:
+                cleared[nm] = cleared.get(nm, False) or clr
+    seen = [c for c in GAPPED if c in cleared]
+    ctx.require(len(seen) >= 7, "ncmpii_dtype_decode: only %d of the gapped combiners have a case (%s)" % (len(seen), seen))
+    for c in GAPPED:
+        if c not in cleared:
+            continue
+        inst = "combiner:%s" % c
+        if cleared[c]:
+            ctx.ok("R10.combiner", inst, "clears *iscontig_of_ptypes")
+        else:
+            ctx.fail("R10.combiner", fn.name, c, "a buffer type built with %s can leave gaps between its elements, but its case does "
+                     "not clear *iscontig_of_ptypes: the type is treated as a contiguous run, MPI_Pack/MPI_Unpack are skipped and "
+                     "the gaps of the caller's buffer are read / overwritten" % c, fn=fn, line=fn.line, inst=inst)
+
+
 def run(ctx):
+    ctx.rule("R10.combiner", "every gapped MPI type constructor is decoded as non-contiguous")
     ctx.rule("R3.swap.pair", "blocking puts undo every in-place swap of buf with identical extent on all exits")
     ctx.rule("R3.swap.flag", "nonblocking puts record NC_REQ_BUF_BYTE_SWAP iff xbuf == buf and need_swap")
     ctx.rule("R3.swap.retire", "req_commit / ncmpio_cancel swap back (buf, nelems, varp->xsz) of the flagged request")
@@ -389,3 +471,4 @@ def run(ctx):
     check_retire(ctx, prog)
     check_siblings(ctx, prog)
     check_abuf(ctx, prog)
+    check_combiners(ctx)
